@@ -281,7 +281,8 @@ private:
             entries = 1u << this->_info._bits_per_pixel;
         }
 
-		this->_palette.resize( entries, rgba8_pixel_t(0,0,0,0) );
+        // palette colours are opaque (the fourth byte of an entry is reserved, not alpha)
+        this->_palette.resize( entries, rgba8_pixel_t(0,0,0,255) );
 
         for( int i = 0; i < entries; ++i )
         {
@@ -327,6 +328,9 @@ private:
            )
         {
             unsigned char c = get_color( *src_it, gray_color_t() );
+            io_error_if( c >= this->_palette.size()
+                       , "Mangled BMP file: palette index out of range."
+                       );
             *dst_it = this->_palette[c];
         }
     }
